@@ -1,5 +1,9 @@
 """A time budget for one call into the library: a changed library that loops forever must end in a verdict (the observation
-"DoesNotTerminate"), not in a hanging check.  SIGALRM based, main thread only; budgets do not nest."""
+"DoesNotTerminate"), not in a hanging check.
+
+The budget is counted in CPU time of this process (ITIMER_VIRTUAL): a busy loop burns it, a machine that is merely
+overloaded does not, so the unchanged library cannot run out of budget because the host is slow.  A much longer
+wall-clock alarm stands behind it for calls that block without computing.  Main thread only; budgets do not nest."""
 import signal
 
 
@@ -7,16 +11,21 @@ class Budget(BaseException):
     """the call took longer than its (very generous) budget"""
 
 
-def call(fn, *args, seconds=10, **kw):
-    """fn(*args, **kw) under an alarm; raises Budget when it does not return in time"""
+def call(fn, *args, seconds=10, wall=None, **kw):
+    """fn(*args, **kw) under a CPU-time budget of `seconds` (and a wall-clock limit of `wall`, default 60 x seconds);
+    raises Budget when it does not return in time"""
 
     def on_alarm(signum, frame):
         raise Budget()
 
-    old = signal.signal(signal.SIGALRM, on_alarm)
-    signal.setitimer(signal.ITIMER_REAL, seconds)
+    old_v = signal.signal(signal.SIGVTALRM, on_alarm)
+    old_a = signal.signal(signal.SIGALRM, on_alarm)
+    signal.setitimer(signal.ITIMER_VIRTUAL, seconds)
+    signal.setitimer(signal.ITIMER_REAL, wall if wall is not None else 60 * seconds)
     try:
         return fn(*args, **kw)
     finally:
+        signal.setitimer(signal.ITIMER_VIRTUAL, 0)
         signal.setitimer(signal.ITIMER_REAL, 0)
-        signal.signal(signal.SIGALRM, old)
+        signal.signal(signal.SIGVTALRM, old_v)
+        signal.signal(signal.SIGALRM, old_a)
